@@ -127,6 +127,7 @@ func Initialize(initMetadata bool, iconfig Config) error {
 	// Set the package variable.  We are good to go...
 	manager = m
 	m.verifManagerReady(initMetadata)
+	m.resumeDeletions()
 
 	// Add ephemeral data instances if a store wants it.
 	stores, err := storage.AllStores()
@@ -253,6 +254,7 @@ func ReloadMetadata() error {
 	// at time of this function.
 	manager = m
 	m.verifManagerReady(false)
+	m.resumeDeletions()
 
 	return nil
 }
@@ -730,23 +732,34 @@ func (m *repoManager) loadVersion0() error {
 	}
 	dvid.TimeInfof("Loaded %d repositories from metadata store.\n", len(m.repos))
 
-	// make sure any in-process deletions restart
-	if !m.readOnly {
-		for repoID, root := range m.repoToUUID {
-			r, found := m.repos[root]
-			if !found {
-				return fmt.Errorf("could not find repo %s (repo ID %d)", root, repoID)
-			}
-			for name, data := range r.data {
-				if data.IsDeleted() {
-					if err := r.deleteDataByName(name); err != nil {
-						dvid.TimeCriticalf("tried to restart deletion of data %q but failed: %v\n", name, err)
-					}
-				}
+	return nil
+}
+
+// resumeDeletions restarts the deletion of data instances that was interrupted by a
+// shutdown or crash: the deletion flag of an instance is persisted before any of its keys
+// is removed.  Called once the manager is in place, since the deletion ends with a repo save.
+func (m *repoManager) resumeDeletions() {
+	if m.readOnly {
+		return
+	}
+	for _, root := range m.repoToUUID {
+		r, found := m.repos[root]
+		if !found {
+			continue
+		}
+		r.RLock()
+		var pending []DataService
+		for _, data := range r.data {
+			if data.IsDeleted() {
+				pending = append(pending, data)
 			}
 		}
+		r.RUnlock()
+		for _, data := range pending {
+			dvid.TimeInfof("Resuming deletion of data instance %q\n", data.DataName())
+			go r.deleteData(data)
+		}
 	}
-	return nil
 }
 
 func (m *repoManager) loadMetadata() error {
@@ -2516,7 +2529,13 @@ func (m *repoManager) deleteData(data DataService, passcode string) error {
 		return err
 	}
 	if r.passcodeOK(passcode) {
+		// The deletion flag is persisted before any key is removed, so that a deletion
+		// interrupted by a crash is resumed on the next start (see resumeDeletions).
 		data.SetDeleted(true)
+		if err := r.save(); err != nil {
+			data.SetDeleted(false)
+			return err
+		}
 		go r.deleteData(data)
 	} else {
 		return fmt.Errorf("incorrect passcode for repo %s", r.uuid)
@@ -2691,6 +2710,10 @@ func (r *repoT) deleteDataByName(name dvid.InstanceName) error {
 		return ErrInvalidDataName
 	}
 	data.SetDeleted(true)
+	if err := r.save(); err != nil {
+		data.SetDeleted(false)
+		return err
+	}
 
 	go r.deleteData(data)
 	return nil
@@ -2698,6 +2721,10 @@ func (r *repoT) deleteDataByName(name dvid.InstanceName) error {
 
 func (r *repoT) deleteDataByDataUUID(data DataService) error {
 	data.SetDeleted(true)
+	if err := r.save(); err != nil {
+		data.SetDeleted(false)
+		return err
+	}
 	go r.deleteData(data)
 	return nil
 }
